@@ -16,6 +16,7 @@ GROUPS = [
     # the structure built on hazard pointers: no reclaimed node is dereferenced (obligations 'O: C14 ...'; spec shared with C13)
     dict(name='fifo_trypop_protection', tu='../C13/fifo.c', harness='h_trypop', mode='H', loop_contracts=True, defs=['-DVERIF_LOOP_FLAG'], functions=['mpmc_fifo_trypop', 'hazard_pointer_using', 'hazard_pointer_done_using'], unwind=6, exact_unwind=True, timeout=900),
     dict(name='fifo_push_protection', tu='../C13/fifo.c', harness='h_push', mode='H', loop_contracts=True, defs=['-DVERIF_LOOP_FLAG'], functions=['mpmc_fifo_push', 'hazard_pointer_using', 'hazard_pointer_done_using'], unwind=6, exact_unwind=True, timeout=900),
+    dict(name='lemmas', tu='lemmas.c', kind='lemmas', harness='', no_native='pure lemma'),
     dict(name='using_free', tu='hazard.c', harness='h_using_free', mode='H', functions=['hazard_pointer_using', 'hazard_pointer_done_using', 'hazard_pointer_free'], unwind=6, bounded=True,
          bound='one record, 2 slots, threshold 4'),
 ]
